@@ -45,6 +45,7 @@ right object and threw it away); `py_inflate_hom` is now the full statement (res
 resolution of the flat sketch) and the former counterexample is a regression `example`.
 -/
 import SmVerif.Lemmas.SetOpsSig
+import SmVerif.Lemmas.SetOpsNum
 import SmVerif.Props.C03
 
 namespace Sm.C04
@@ -611,6 +612,256 @@ theorem downsample_same_threshold_content {s r : MH} {sc : Nat} (hs : Scaled s)
   · rename_i c
     exact (count_eq_zero_of_gt hs (by omega)).symm
 
+/-! ### algebraic laws (scaled sketches)
+
+All at the model level, as equalities of the stored vectors (`mins`, `abunds`), derived from the homomorphisms
+above: two valid sketches with the same counts are the same vectors (`ext_of_count'`). -/
+
+theorem scaled_removeFrom {a : MH} (ha : Scaled a) (b : MH) : Scaled (a.removeFrom b) := by
+  have f := removeMany_frame a b.mins
+  exact ⟨inv_removeFrom ha.inv b, f.1.trans ha.num, by rw [show (a.removeFrom b).maxHash = a.maxHash from f.2.1]; exact ha.max⟩
+
+/-- **commutativity up to abundance mode**: whatever the abundance modes of the two operands, `a ∪ b` and `b ∪ a`
+hold the same hashes (each result in the abundance mode of its receiver; with equal modes also the same
+abundances: `union_comm`) -/
+theorem union_comm_hashes {a b r1 r2 : MH} (ha : Scaled a) (hb : Scaled b)
+    (h1 : a.merge b = .ok r1) (h2 : b.merge a = .ok r2) : r1.mins = r2.mins := by
+  obtain ⟨s1, _, _, c1⟩ := merge_hom ha hb.inv h1
+  obtain ⟨s2, _, _, c2⟩ := merge_hom hb ha.inv h2
+  apply s1.inv.sorted.ext s2.inv.sorted
+  intro x
+  rw [mem_iff_count_pos' s1.inv, mem_iff_count_pos' s2.inv, c1 x, c2 x]
+  split <;> split <;> omega
+
+/-- union with itself keeps the hashes in every abundance mode … -/
+theorem union_idem_hashes {a r : MH} (ha : Scaled a) (h : a.merge a = .ok r) : r.mins = a.mins := by
+  obtain ⟨s1, _, _, c1⟩ := merge_hom ha ha.inv h
+  apply s1.inv.sorted.ext ha.inv.sorted
+  intro x
+  rw [mem_iff_count_pos' s1.inv, mem_iff_count_pos' ha.inv, c1 x]
+  split <;> omega
+
+/-- … and DOUBLES every abundance of an abundance sketch (merged abundances are sums): union is idempotent on flat
+sketches only (`union_idem`) -/
+theorem union_self_doubles {a r : MH} (ha : Scaled a) (ht : a.trackAbundance = true)
+    (h : a.merge a = .ok r) (x : Nat) : count r x = 2 * count a x := by
+  obtain ⟨_, _, _, c1⟩ := merge_hom ha ha.inv h
+  rw [c1 x, ht]; simp only [if_true]; omega
+
+/- FULL STATEMENT (not proved / false):
+     theorem union_idem_any_mode {a r : MH} (ha : Scaled a) (h : a.merge a = .ok r) :
+         r.mins = a.mins ∧ r.abunds = a.abunds
+   False for abundance sketches (`union_self_doubles`, `union_idem_abund_counterexample`); minimal correction:
+   the hypothesis `a.trackAbundance = false` (`union_idem`). -/
+theorem union_idem_abund_counterexample :
+    let a := ((MH.new 1 21 1 42 true 0).addHashAb 5 3).addHashAb 7 2
+    ∃ r, a.merge a = .ok r ∧ r.mins = a.mins ∧ a.abunds = some [3, 2] ∧ r.abunds = some [6, 4] := by
+  refine ⟨_, rfl, ?_, ?_, ?_⟩ <;> decide
+
+/-- intersection is commutative -/
+theorem inter_comm {a b a' b' r1 r2 : MH} (ha : Scaled a) (hb : Scaled b)
+    (h1 : Py.intersection a b = .ok (a', r1)) (h2 : Py.intersection b a = .ok (b', r2)) :
+    r1.mins = r2.mins ∧ r1.abunds = r2.abunds := by
+  obtain ⟨s1, t1, _, _, _, _, c1⟩ := pyIntersection_spec ha hb.inv h1
+  obtain ⟨s2, t2, _, _, _, _, c2⟩ := pyIntersection_spec hb ha.inv h2
+  apply ext_of_count' s1.inv s2.inv (by rw [t1, t2])
+  intro x
+  rw [c1 x, c2 x]
+  exact ite_congr_prop and_comm _ _
+
+/-- intersection is idempotent -/
+theorem inter_idem {a a' r : MH} (ha : Scaled a) (h : Py.intersection a a = .ok (a', r)) :
+    r.mins = a.mins ∧ r.abunds = a.abunds := by
+  obtain ⟨s1, t1, _, ta, _, _, c1⟩ := pyIntersection_spec ha ha.inv h
+  apply ext_of_count' s1.inv ha.inv (by rw [t1, ta])
+  intro x
+  rw [c1 x, count_flat ha.inv ta]
+  exact ite_congr_prop (and_self_iff) _ _
+
+/-- intersection is associative -/
+theorem inter_assoc {a b c a' ab' b' a'' ab bc r1 r2 : MH} (ha : Scaled a) (hb : Scaled b) (hc : Scaled c)
+    (h1 : Py.intersection a b = .ok (a', ab)) (h2 : Py.intersection ab c = .ok (ab', r1))
+    (h3 : Py.intersection b c = .ok (b', bc)) (h4 : Py.intersection a bc = .ok (a'', r2)) :
+    r1.mins = r2.mins ∧ r1.abunds = r2.abunds := by
+  obtain ⟨sab, _, _, _, _, _, cab⟩ := pyIntersection_spec ha hb.inv h1
+  obtain ⟨s1, t1, _, _, _, _, c1⟩ := pyIntersection_spec sab hc.inv h2
+  obtain ⟨sbc, _, _, _, _, _, cbc⟩ := pyIntersection_spec hb hc.inv h3
+  obtain ⟨s2, t2, _, _, _, _, c2⟩ := pyIntersection_spec ha sbc.inv h4
+  have mab : ∀ x, x ∈ ab.mins ↔ x ∈ a.mins ∧ x ∈ b.mins := inter_mem ha hb.inv h1
+  have mbc : ∀ x, x ∈ bc.mins ↔ x ∈ b.mins ∧ x ∈ c.mins := inter_mem hb hc.inv h3
+  apply ext_of_count' s1.inv s2.inv (by rw [t1, t2])
+  intro x
+  rw [c1 x, c2 x]
+  apply ite_congr_prop
+  rw [mab, mbc, and_assoc]
+
+/-- **absorption** (flat sketches): `a ∪ (a ∩ b) = a` -/
+theorem absorb_union_inter {a b a' i r : MH} (ha : Scaled a) (hb : Scaled b)
+    (h1 : Py.intersection a b = .ok (a', i)) (h2 : a.merge i = .ok r) :
+    r.mins = a.mins ∧ r.abunds = a.abunds := by
+  obtain ⟨si, _, _, ta, _, _, ci⟩ := pyIntersection_spec ha hb.inv h1
+  obtain ⟨sr, tr, _, cr⟩ := merge_hom ha si.inv h2
+  apply ext_of_count' sr.inv ha.inv tr
+  intro x
+  rw [cr x, ta, ci x, count_flat ha.inv ta]
+  simp only [Bool.false_eq_true, if_false]
+  by_cases hx : x ∈ a.mins <;> by_cases hy : x ∈ b.mins <;> simp [hx, hy]
+
+/-- **absorption** (flat sketches): `a ∩ (a ∪ b) = a` -/
+theorem absorb_inter_union {a b u a' r : MH} (ha : Scaled a) (hb : Scaled b)
+    (h1 : a.merge b = .ok u) (h2 : Py.intersection a u = .ok (a', r)) :
+    r.mins = a.mins ∧ r.abunds = a.abunds := by
+  obtain ⟨su, _, _, cu⟩ := merge_hom ha hb.inv h1
+  obtain ⟨sr, tr, _, ta, _, _, cr⟩ := pyIntersection_spec ha su.inv h2
+  apply ext_of_count' sr.inv ha.inv (by rw [tr, ta])
+  intro x
+  rw [cr x, count_flat ha.inv ta]
+  apply ite_congr_prop
+  constructor
+  · exact fun h => h.1
+  · intro hx
+    refine ⟨hx, ?_⟩
+    rw [mem_iff_count_pos' su.inv, cu x, ta]
+    have := (mem_iff_count_pos' ha.inv x).1 hx
+    simp only [Bool.false_eq_true, if_false]; omega
+
+/-- **distributivity** (flat sketches): `a ∩ (b ∪ c) = (a ∩ b) ∪ (a ∩ c)` -/
+theorem inter_distrib_union {a b c bc a1 a2 a3 l ab ac r : MH} (ha : Scaled a) (hb : Scaled b) (hc : Scaled c)
+    (htb : b.trackAbundance = false)
+    (h1 : b.merge c = .ok bc) (h2 : Py.intersection a bc = .ok (a1, l))
+    (h3 : Py.intersection a b = .ok (a2, ab)) (h4 : Py.intersection a c = .ok (a3, ac))
+    (h5 : ab.merge ac = .ok r) :
+    l.mins = r.mins ∧ l.abunds = r.abunds := by
+  obtain ⟨sbc, _, _, cbc⟩ := merge_hom hb hc.inv h1
+  obtain ⟨sl, tl, _, _, _, _, cl⟩ := pyIntersection_spec ha sbc.inv h2
+  obtain ⟨sab, tab, _, _, _, _, cab⟩ := pyIntersection_spec ha hb.inv h3
+  obtain ⟨sac, _, _, _, tc, _, cac⟩ := pyIntersection_spec ha hc.inv h4
+  obtain ⟨sr, tr, _, cr⟩ := merge_hom sab sac.inv h5
+  apply ext_of_count' sl.inv sr.inv (by rw [tl, tr, tab])
+  intro x
+  have mbc : x ∈ bc.mins ↔ x ∈ b.mins ∨ x ∈ c.mins := by
+    rw [mem_iff_count_pos' sbc.inv, cbc x, htb, mem_iff_count_pos' hb.inv, mem_iff_count_pos' hc.inv]
+    simp only [Bool.false_eq_true, if_false]; omega
+  rw [cl x, cr x, tab, cab x, cac x]
+  simp only [mbc, Bool.false_eq_true, if_false]
+  by_cases hx : x ∈ a.mins <;> by_cases hy : x ∈ b.mins <;> by_cases hz : x ∈ c.mins <;> simp [hx, hy, hz]
+
+/-- **subtract ∘ intersect**: removing the common part is removing the other operand, `a \ (a ∩ b) = a \ b` -/
+theorem subtract_inter {a b a' i : MH} (ha : Scaled a) (hb : Scaled b)
+    (h1 : Py.intersection a b = .ok (a', i)) :
+    (a.removeFrom i).mins = (a.removeFrom b).mins ∧ (a.removeFrom i).abunds = (a.removeFrom b).abunds := by
+  have mi := inter_mem ha hb.inv h1
+  have f1 := removeMany_frame a i.mins
+  have f2 := removeMany_frame a b.mins
+  apply ext_of_count' (inv_removeFrom ha.inv i) (inv_removeFrom ha.inv b)
+    (show (a.removeFrom i).trackAbundance = (a.removeFrom b).trackAbundance from f1.2.2.trans f2.2.2.symm)
+  intro x
+  rw [subtract_hom ha.inv, subtract_hom ha.inv]
+  simp only [mi]
+  by_cases hx : x ∈ a.mins
+  · simp [hx]
+  · have h0 : count a x = 0 := by
+      have := mem_iff_count_pos' ha.inv x
+      have : ¬ 0 < count a x := fun h => hx (this.2 h)
+      omega
+    simp [hx, h0]
+
+/-- what was subtracted is gone: `(a \ b) ∩ b = ∅` -/
+theorem inter_subtract_empty {a b d' r : MH} (ha : Scaled a) (hb : Scaled b)
+    (h : Py.intersection (a.removeFrom b) b = .ok (d', r)) : r.mins = [] := by
+  have sd := scaled_removeFrom ha b
+  have m := inter_mem sd hb.inv h
+  apply List.eq_nil_iff_forall_not_mem.2
+  intro x hx
+  obtain ⟨h1, h2⟩ := (m x).1 hx
+  have := (mem_iff_count_pos' sd.inv x).1 h1
+  rw [subtract_hom ha.inv, if_pos h2] at this
+  omega
+
+/-- the two parts make up the whole (flat sketches): `(a \ b) ∪ (a ∩ b) = a` -/
+theorem subtract_union_inter {a b a' i r : MH} (ha : Scaled a) (hb : Scaled b)
+    (h1 : Py.intersection a b = .ok (a', i)) (h2 : (a.removeFrom b).merge i = .ok r) :
+    r.mins = a.mins ∧ r.abunds = a.abunds := by
+  obtain ⟨si, _, _, ta, _, _, ci⟩ := pyIntersection_spec ha hb.inv h1
+  have sd := scaled_removeFrom ha b
+  have fd := removeMany_frame a b.mins
+  obtain ⟨sr, tr, _, cr⟩ := merge_hom sd si.inv h2
+  apply ext_of_count' sr.inv ha.inv (tr.trans fd.2.2)
+  intro x
+  have td : (a.removeFrom b).trackAbundance = false := fd.2.2.trans ta
+  rw [cr x, td, subtract_hom ha.inv, ci x, count_flat ha.inv ta]
+  simp only [Bool.false_eq_true, if_false]
+  by_cases hx : x ∈ a.mins <;> by_cases hy : x ∈ b.mins <;> simp [hx, hy]
+
+/-- flatten is idempotent -/
+theorem flatten_idem {a f g : MH} (ha : Scaled a) (hst : Stable a.maxHash)
+    (h1 : Py.flattenD a = .ok f) (h2 : Py.flattenD f = .ok g) : g.mins = f.mins ∧ g.abunds = f.abunds := by
+  obtain ⟨sf, tf, mf, _, cf⟩ := pyFlattenD_spec ha hst h1
+  obtain ⟨sg, tg, _, _, cg⟩ := pyFlattenD_spec sf (by rw [mf]; exact hst) h2
+  apply ext_of_count' sg.inv sf.inv (by rw [tg, tf])
+  intro x
+  rw [cg x]
+  have := count_le_of_flat sf.inv tf x
+  omega
+
+/-- flatten distributes over union: `flatten (a ∪ b) = flatten a ∪ flatten b` -/
+theorem flatten_union {a b u fu fa fb r : MH} (ha : Scaled a) (hb : Scaled b)
+    (hsa : Stable a.maxHash) (hsb : Stable b.maxHash)
+    (h1 : a.merge b = .ok u) (h2 : Py.flattenD u = .ok fu)
+    (h3 : Py.flattenD a = .ok fa) (h4 : Py.flattenD b = .ok fb) (h5 : fa.merge fb = .ok r) :
+    fu.mins = r.mins ∧ fu.abunds = r.abunds := by
+  obtain ⟨su, _, mu, cu⟩ := merge_hom ha hb.inv h1
+  obtain ⟨sfu, tfu, _, _, cfu⟩ := pyFlattenD_spec su (by rw [mu]; exact hsa) h2
+  obtain ⟨sfa, tfa, _, _, cfa⟩ := pyFlattenD_spec ha hsa h3
+  obtain ⟨sfb, _, _, _, cfb⟩ := pyFlattenD_spec hb hsb h4
+  obtain ⟨sr, tr, _, cr⟩ := merge_hom sfa sfb.inv h5
+  apply ext_of_count' sfu.inv sr.inv (by rw [tfu, tr, tfa])
+  intro x
+  rw [cfu x, cu x, cr x, tfa, cfa x, cfb x]
+  simp only [Bool.false_eq_true, if_false]
+  split <;> omega
+
+/-- **inflate ∘ flatten = id**: an abundance sketch is recovered from its flattened form and itself
+(Rust `KmerMinHash::inflate`) -/
+theorem inflate_flatten {a f r : MH} (ha : Scaled a) (hst : Stable a.maxHash) (hta : a.trackAbundance = true)
+    (h1 : Py.flattenD a = .ok f) (h2 : f.inflate a = .ok r) : r.mins = a.mins ∧ r.abunds = a.abunds := by
+  obtain ⟨sf, _, _, _, cf⟩ := pyFlattenD_spec ha hst h1
+  obtain ⟨ir, tr, _, _, _, _, cr⟩ := inflate_spec sf.inv ha.inv h2
+  apply ext_of_count' ir ha.inv (by rw [tr, hta])
+  intro x
+  rw [cr x]
+  have hm : x ∈ f.mins ↔ 0 < count a x := by
+    rw [mem_iff_count_pos' sf.inv, cf x]; omega
+  by_cases hx : x ∈ f.mins
+  · rw [if_pos hx]
+  · rw [if_neg hx]
+    have : ¬ 0 < count a x := fun h => hx (hm.2 h)
+    omega
+
+/-- the same through the Python `MinHash.inflate` -/
+theorem py_inflate_flatten {a f r : MH} (ha : Scaled a) (hst : Stable a.maxHash) (hsd : StableDown a.maxHash)
+    (hta : a.trackAbundance = true)
+    (h1 : Py.flattenD a = .ok f) (h2 : Py.inflate f a = .ok r) : r.mins = a.mins ∧ r.abunds = a.abunds := by
+  obtain ⟨sf, _, mf, _, cf⟩ := pyFlattenD_spec ha hst h1
+  obtain ⟨sr, tr, _, cr⟩ := py_inflate_hom sf ha hst (by rw [mf]; exact hsd) h2
+  apply ext_of_count' sr.inv ha.inv (by rw [tr, hta])
+  intro x
+  rw [cr x]
+  have hm : x ∈ f.mins ↔ 0 < count a x := by
+    rw [mem_iff_count_pos' sf.inv, cf x]; omega
+  by_cases hx : x ∈ f.mins
+  · rw [if_pos hx]
+  · rw [if_neg hx]
+    have : ¬ 0 < count a x := fun h => hx (hm.2 h)
+    omega
+
+/-- **flatten ∘ inflate = ∩**: the hashes of `inflate f o` are the hashes of `f` that `o` has -/
+theorem inflate_hashes {f o r : MH} (hf : Inv f) (ho : Inv o) (h : f.inflate o = .ok r) (x : Nat) :
+    x ∈ r.mins ↔ x ∈ f.mins ∧ x ∈ o.mins := by
+  obtain ⟨ir, _, _, _, _, _, cr⟩ := inflate_spec hf ho h
+  rw [mem_iff_count_pos' ir, cr x, mem_iff_count_pos' ho]
+  by_cases hx : x ∈ f.mins <;> simp [hx]
+
 /-! ### num sketches -/
 
 /-- merging num sketches keeps the `num` smallest hashes of the sorted union of the two
@@ -688,6 +939,198 @@ theorem inter_num {s o : MH} {c : List Nat} {u : Nat} (hs : Inv s) (ho : Inv o)
         rw [mem_interL _ _ (sorted_interL _ _ hs.sorted) hi2.sorted,
           mem_interL _ _ hs.sorted ho.sorted, hm2]
         exact and_assoc
+
+/-! ### algebraic laws (num sketches, one common `num`)
+
+The union laws transfer from scaled sketches: every valid num sketch is the bottom-`num` of an unbounded reference
+sketch, `merge` commutes with that representation (C01 `NumRep.merge`, from `mergeP_take`), and the references are
+scaled sketches, for which the laws are proved above.  The num "intersection" is not the sketch of the intersection
+of the data and fails absorption (`num_absorption_counterexample`). -/
+
+/-- num union is commutative (same `num`, same abundance mode): same hashes, same abundances -/
+theorem num_union_comm {a b r1 r2 : MH} (ha : NumSk a) (hb : NumSk b) (hn : b.num = a.num)
+    (ht : a.trackAbundance = b.trackAbundance)
+    (h1 : a.merge b = .ok r1) (h2 : b.merge a = .ok r2) : r1.mins = r2.mins ∧ r1.abunds = r2.abunds := by
+  obtain ⟨w1, hw1, q1⟩ := ha.rep.merge hb.rep hn h1
+  obtain ⟨w2, hw2, q2⟩ := hb.rep.merge ha.rep hn.symm h2
+  have hc := union_comm ha.rep.isRef.scaled hb.rep.isRef.scaled
+    (by rw [← ha.rep.track, ← hb.rep.track]; exact ht) hw1 hw2
+  exact q1.ext q2 ((merge_frame h1).1.trans (hn.symm.trans (merge_frame h2).1.symm)) hc.1 hc.2
+
+/-- … and in any abundance modes the two unions hold the same hashes -/
+theorem num_union_comm_hashes {a b r1 r2 : MH} (ha : NumSk a) (hb : NumSk b) (hn : b.num = a.num)
+    (h1 : a.merge b = .ok r1) (h2 : b.merge a = .ok r2) : r1.mins = r2.mins := by
+  obtain ⟨w1, hw1, q1⟩ := ha.rep.merge hb.rep hn h1
+  obtain ⟨w2, hw2, q2⟩ := hb.rep.merge ha.rep hn.symm h2
+  have := union_comm_hashes ha.rep.isRef.scaled hb.rep.isRef.scaled hw1 hw2
+  rw [q1.mins, q2.mins, this, (merge_frame h1).1, (merge_frame h2).1, hn]
+
+/-- num union is associative (one common `num`) -/
+theorem num_union_assoc {a b c ab bc r1 r2 : MH} (ha : NumSk a) (hb : NumSk b) (hc : NumSk c)
+    (hnb : b.num = a.num) (hnc : c.num = a.num) (ht : a.trackAbundance = b.trackAbundance)
+    (h1 : a.merge b = .ok ab) (h2 : ab.merge c = .ok r1)
+    (h3 : b.merge c = .ok bc) (h4 : a.merge bc = .ok r2) : r1.mins = r2.mins ∧ r1.abunds = r2.abunds := by
+  obtain ⟨wab, hwab, qab⟩ := ha.rep.merge hb.rep hnb h1
+  obtain ⟨w1, hw1, q1⟩ := qab.merge hc.rep (hnc.trans (merge_frame h1).1.symm) h2
+  obtain ⟨wbc, hwbc, qbc⟩ := hb.rep.merge hc.rep (hnc.trans hnb.symm) h3
+  obtain ⟨w2, hw2, q2⟩ := ha.rep.merge qbc ((merge_frame h3).1.trans hnb) h4
+  have hl := union_assoc ha.rep.isRef.scaled hb.rep.isRef.scaled hc.rep.isRef.inv
+    (by rw [← ha.rep.track, ← hb.rep.track]; exact ht) hwab hw1 hwbc hw2
+  exact q1.ext q2 ((merge_frame h2).1.trans ((merge_frame h1).1.trans (merge_frame h4).1.symm)) hl.1 hl.2
+
+/-- num union is idempotent on flat sketches -/
+theorem num_union_idem {a r : MH} (ha : NumSk a) (ht : a.trackAbundance = false)
+    (h : a.merge a = .ok r) : r.mins = a.mins ∧ r.abunds = a.abunds := by
+  obtain ⟨w, hw, q⟩ := ha.rep.merge ha.rep rfl h
+  have hl := union_idem ha.rep.isRef.scaled (by rw [← ha.rep.track]; exact ht) hw
+  exact q.ext ha.rep (merge_frame h).1 hl.1 hl.2
+
+/-- the num "intersection" is symmetric in its operands' hashes when the two `num` agree -/
+theorem num_inter_comm {a b : MH} {c1 c2 : List Nat} {u1 u2 : Nat} (ha : NumSk a) (hb : NumSk b)
+    (hn : b.num = a.num) (h1 : a.intersection b = .ok (c1, u1)) (h2 : b.intersection a = .ok (c2, u2))
+    (x : Nat) : x ∈ c1 ↔ x ∈ c2 := by
+  rw [inter_num ha.inv hb.inv ha.num h1, inter_num hb.inv ha.inv hb.num h2, hn]
+  have hk : ∀ z, z ∈ ((mergeP a.pairs b.pairs).take a.num).map Prod.fst ↔
+      z ∈ ((mergeP b.pairs a.pairs).take a.num).map Prod.fst := by
+    -- the two merged walks are the pair lists of `a.merge b` and `b.merge a` restricted to keys
+    intro z
+    obtain ⟨r1, hr1⟩ : ∃ r, a.merge b = .ok r := by
+      unfold MH.intersection at h1
+      rcases checkCompatible_cases a b with ⟨e, he⟩ | ⟨_, hc⟩
+      · rw [he] at h1; simp [bind, Except.bind] at h1
+      · exact merge_eq_ok_of hc.1 hc.2.1 hc.2.2.1 hc.2.2.2
+    obtain ⟨r2, hr2⟩ : ∃ r, b.merge a = .ok r := by
+      obtain ⟨⟨k1, k2, k3, k4⟩, _⟩ := merge_ok hr1
+      exact merge_eq_ok_of k1.symm k2.symm k3.symm k4.symm
+    have e1 := num_merge_take' hr1 ha.num
+    have e2 := num_merge_take' hr2 hb.num
+    rw [hn] at e2
+    rw [← e1, ← e2, pairs_keys (inv_merge ha.inv hb.inv hr1).toW, pairs_keys (inv_merge hb.inv ha.inv hr2).toW,
+      num_union_comm_hashes ha hb hn hr1 hr2]
+  rw [hk]
+  constructor
+  · exact fun h => ⟨h.2.1, h.1, h.2.2⟩
+  · exact fun h => ⟨h.2.1, h.1, h.2.2⟩
+
+/- FULL STATEMENT (not proved / false):
+     "absorption for num sketches: a ∩ (a ∪ b) = a"
+   The num intersection keeps only the common hashes that lie within the `num` smallest of the union of the two
+   sketches (`inter_num`), so hashes of `a` beyond the bottom-`num` of `a ∪ b` are lost.  The other absorption
+   law and the union laws hold (`num_union_comm` / `_assoc` / `_idem`). -/
+theorem num_absorption_counterexample :
+    let a := (MH.new 0 21 1 42 false 2).addMany [3, 4]
+    let b := (MH.new 0 21 1 42 false 2).addMany [1]
+    ∃ u, a.merge b = .ok u ∧ u.mins = [1, 3] ∧
+      (Py.intersection a u).toOption.map (fun p => p.2.mins) = some [3] ∧ a.mins = [3, 4] := by
+  refine ⟨_, rfl, ?_, ?_, ?_⟩ <;> decide
+
+/-! ### an operand used twice (`a.merge(a)`, `a += a`, `a + a`, `a & a`, `a.add_many(a)`, `a.remove_many(a)`,
+`sig merge f.sig f.sig`)
+
+The model is a value model: an operation applied to a sketch and itself IS the operation applied to the sketch and a
+copy of it.  The stream runs every one of these with ONE object (one pointer) behind both operands and compares. -/
+
+/-- `a.merge(a)` / `a += a`: the hashes stay; an abundance sketch doubles every abundance; a flat sketch is unchanged -/
+theorem merge_self {a r : MH} (ha : Scaled a) (h : a.merge a = .ok r) :
+    r.mins = a.mins ∧ (∀ x, count r x = if a.trackAbundance then 2 * count a x else count a x) ∧
+    (a.trackAbundance = false → r.abunds = a.abunds) := by
+  refine ⟨union_idem_hashes ha h, ?_, fun ht => (union_idem ha ht h).2⟩
+  intro x
+  obtain ⟨_, _, _, c1⟩ := merge_hom ha ha.inv h
+  rw [c1 x]
+  cases ht : a.trackAbundance
+  · have := count_le_of_flat ha.inv ht x
+    simp only [Bool.false_eq_true, if_false]; omega
+  · simp only [if_true]; omega
+
+theorem iadd_self {a r : MH} (ha : Scaled a) (h : Py.iadd a a = .ok r) :
+    r.mins = a.mins ∧ (∀ x, count r x = if a.trackAbundance then 2 * count a x else count a x) :=
+  ⟨(merge_self ha h).1, (merge_self ha h).2.1⟩
+
+/-- `a + a` / `a | a`: the same result as `a.merge(a)` on a copy -/
+theorem add_self {a r : MH} (ha : Scaled a) (h : Py.add a a = .ok r) :
+    r.mins = a.mins ∧ (∀ x, count r x = if a.trackAbundance then 2 * count a x else count a x) := by
+  obtain ⟨sr, _, _, _, c1⟩ := pyAdd_spec ha ha.inv h
+  have hc : ∀ x, count r x = if a.trackAbundance then 2 * count a x else count a x := by
+    intro x
+    rw [c1 x]
+    cases ht : a.trackAbundance
+    · have := count_le_of_flat ha.inv ht x
+      simp only [Bool.false_eq_true, if_false]; omega
+    · simp only [if_true]; omega
+  refine ⟨?_, hc⟩
+  apply sr.inv.sorted.ext ha.inv.sorted
+  intro x
+  rw [mem_iff_count_pos' sr.inv, mem_iff_count_pos' ha.inv, hc x]
+  split <;> omega
+
+/-- `a & a` / `a.intersection(a)` is `a` (`inter_idem`) -/
+theorem inter_self {a a' r : MH} (ha : Scaled a) (h : Py.intersection a a = .ok (a', r)) :
+    r.mins = a.mins ∧ r.abunds = a.abunds := inter_idem ha h
+
+/-- `a.remove_many(a)` empties the sketch (every hash goes; before the repair of D23 every other hash stayed) -/
+theorem remove_self_empty {a : MH} (ha : Inv a) : (a.removeFrom a).mins = [] := by
+  apply List.eq_nil_iff_forall_not_mem.2
+  intro x hx
+  have := (mem_iff_count_pos' (inv_removeFrom ha a) x).1 hx
+  rw [subtract_hom ha a x] at this
+  have hm : x ∈ a.mins := by
+    by_cases hm : x ∈ a.mins
+    · exact hm
+    · rw [if_neg hm] at this
+      exact absurd ((mem_iff_count_pos' ha x).2 this) hm
+  rw [if_pos hm] at this
+  omega
+
+/-- `a.add_many(a)`: the hashes stay; an abundance sketch counts every hash once more -/
+theorem addmany_self {a : MH} (ha : Scaled a) (x : Nat) :
+    count (a.addFrom a) x = if a.trackAbundance then (if x ∈ a.mins then count a x + 1 else 0) else count a x := by
+  unfold MH.addFrom
+  rw [count_addMany_scaled ha]
+  have hnd := Sorted.nodup ha.inv.sorted
+  by_cases hx : x ∈ a.mins
+  · have hle : ¬ x > a.maxHash := by have := ha.inv.bounded ha.max x hx; omega
+    have hc : a.mins.count x = 1 := List.count_eq_one_of_mem hnd hx
+    rw [if_neg hle, hc]
+    cases ht : a.trackAbundance
+    · simp only [Bool.false_eq_true, if_false, if_pos hx]
+      rw [count_flat ha.inv ht, if_pos hx]
+    · simp only [if_true, if_pos hx]
+  · have h0 : count a x = 0 := by
+      have := mem_iff_count_pos' ha.inv x
+      have : ¬ 0 < count a x := fun h => hx (this.2 h)
+      omega
+    have hc : a.mins.count x = 0 := List.count_eq_zero_of_not_mem hx
+    rw [hc, h0]
+    simp only [hx, if_false, Nat.add_zero]
+    split <;> split <;> rfl
+
+/-- `sig merge f.sig f.sig` (the same signature twice): the hashes of `f`; without `--flatten` an abundance signature
+doubles, a flat one is unchanged -/
+theorem sigMerge_self {a r : MH} (ha : Scaled a) (hst : Stable a.maxHash)
+    (hr : sigMerge false [a, a] = .ok r) (x : Nat) :
+    count r x = if a.trackAbundance then 2 * count a x else count a x := by
+  obtain ⟨_, tr, _, c⟩ := sigMerge_hom ha hst (by intro s hs; simp at hs; rw [hs]; exact ha.inv)
+    (by intro h; cases h) hr
+  rw [c x, tr]
+  simp only [Bool.false_eq_true, if_false, List.map_cons, List.map_nil, List.sum_cons, List.sum_nil]
+  cases ht : a.trackAbundance
+  · have := count_le_of_flat ha.inv ht x
+    simp only [Bool.false_eq_true, if_false]; omega
+  · simp only [if_true]; omega
+
+/-- num sketches: `a.merge(a)` keeps the hashes, doubles the abundances of an abundance sketch, leaves a flat one -/
+theorem num_merge_self {a r : MH} (ha : NumSk a) (h : a.merge a = .ok r) :
+    r.mins = a.mins ∧ ∀ x ∈ a.mins, count r x = if a.trackAbundance then 2 * count a x else count a x := by
+  obtain ⟨w, hw, q⟩ := ha.rep.merge ha.rep rfl h
+  have hsc := ha.rep.isRef.scaled
+  obtain ⟨hm, hc, _⟩ := merge_self hsc hw
+  have hmins : r.mins = a.mins := by
+    rw [q.mins, hm, (merge_frame h).1, ← ha.rep.mins]
+  refine ⟨hmins, fun x hx => ?_⟩
+  rw [q.count_eq (by rw [hmins]; exact hx), hc x, ← ha.rep.track]
+  have : count (liftRef a) x = count a x := rfl
+  rw [this]
 
 /-! ### the statement in terms of the underlying data
 
